@@ -156,14 +156,31 @@ class Conc:
 
 # ------------------------------------------------------------------ the real thing
 
-def parse(text):
+def parse(text, rng=None):
+    """API surface: the same text is handed over as a list of str lines, a list of bytes lines, an
+    iterator, or a text / binary file object"""
+    import io
     from debian._deb822_repro import parse_deb822_file
-    return parse_deb822_file(text.splitlines(True), accept_files_with_duplicated_fields=True,
+    form = rng.randrange(5) if rng is not None else 0
+    lines = text.splitlines(True)
+    if form == 1:
+        src = [l.encode("utf-8") for l in lines]
+    elif form == 2:
+        src = iter(lines)
+    elif form == 3:
+        src = io.StringIO(text)
+    elif form == 4:
+        src = io.BytesIO(text.encode("utf-8"))
+    else:
+        src = lines
+    return parse_deb822_file(src, accept_files_with_duplicated_fields=True,
                              accept_files_with_error_tokens=True)
 
 
-def new_paragraph(conc, n):
+def new_paragraph(conc, n, rng=None):
     from debian._deb822_repro.parsing import Deb822ParagraphElement
+    if rng is not None and rng.random() < 0.5:
+        return Deb822ParagraphElement.from_dict({spelled(conc.base[n], "U"): conc.new[NEWS][0]})
     q = Deb822ParagraphElement.new_empty_paragraph()
     q[spelled(conc.base[n], "U")] = conc.new[NEWS][0]
     return q
@@ -175,7 +192,7 @@ def apply_edge(f, e, conc, rng):
     op, a = e["op"], e["args"]
     try:
         if op in ("insert", "append"):
-            q = new_paragraph(conc, a[-1])
+            q = new_paragraph(conc, a[-1], rng)
             if op == "insert":
                 f.insert(a[0], q)
             else:
@@ -183,17 +200,48 @@ def apply_edge(f, e, conc, rng):
             return "ok"
         paras = list(f)
         p = paras[a[0] - 1]
+        pick = (lambda n: rng.randrange(n)) if rng is not None else (lambda n: 0)
         if op == "get":
-            return ("VAL", p[conc.key(rng, a[1])])
+            k = conc.key(rng, a[1])
+            v = pick(3)
+            if v == 0:
+                return ("VAL", p[k])
+            if v == 1:
+                r = p.get(k)
+                if r is None:
+                    raise KeyError(k)
+                return ("VAL", r)
+            return ("VAL", p.configured_view()[k])
         if op == "set":
             n, i = a[1]
             name = spelled(conc.base[n], a[2])
             # an existing field is addressed in any case variant; a new field gets the model's spelling
             if any(k.lower() == name.lower() for k in p.keys()):
                 name = conc.key(rng, (n, -1))
-            p[name if i < 0 else (name, i)] = conc.new[a[3]][0]
+            key = name if i < 0 else (name, i)
+            v = pick(4)
+            if v == 0:
+                p[key] = conc.new[a[3]][0]
+            elif v == 1:
+                p.update({key: conc.new[a[3]][0]})
+            elif v == 2 and a[3] == NEWS:
+                p.set_field_to_simple_value(key, conc.new[NEWS][0])
+            else:
+                # the raw-string setter takes the exact text after the colon; a lookup error of the
+                # dict interface for an invalid (name, i) is raised by __setitem__'s own lookup
+                if v == 3 and (i < 0 or p.get_kvpair_element(key, use_get=True) is not None or i == 0):
+                    p.set_field_from_raw_string(key, conc.new[a[3]][1])
+                else:
+                    p[key] = conc.new[a[3]][0]
         elif op == "del":
-            del p[conc.key(rng, a[1])]
+            k = conc.key(rng, a[1])
+            v = pick(3)
+            if v == 0:
+                del p[k]
+            elif v == 1:
+                p.pop(k)
+            else:
+                p.remove_kvpair_element(k)
         elif op == "first":
             p.order_first(conc.key(rng, a[1]))
         elif op == "last":
@@ -203,7 +251,13 @@ def apply_edge(f, e, conc, rng):
         elif op == "after":
             p.order_after(conc.key(rng, a[1]), conc.key(rng, a[2]))
         elif op == "sort":
-            p.sort_fields()
+            v = pick(3)
+            if v == 0:
+                p.sort_fields()
+            elif v == 1:
+                p.sort_fields(key=None)
+            else:
+                p.sort_fields(key=lambda x: x.lower())
         else:
             raise AssertionError(op)
         return "ok"
@@ -254,6 +308,8 @@ def check_state(f, model_doc, conc, deep=True):
         f.dump(buf)
         if buf.getvalue().decode("utf-8") != got:
             return "dump(fd) writes %r but dump() returns %r" % (buf.getvalue().decode("utf-8", "replace"), got)
+        if f.convert_to_text() != got:
+            return "convert_to_text() gives %r but dump() returns %r" % (f.convert_to_text(), got)
     mparas = [part for part in model_doc if part["t"] == "p"]
     if not eq_mod_final_newline(exp, got):
         # fall back to what the statement promises: same paragraphs, same fields in the same
@@ -359,7 +415,7 @@ def run_path(start_doc, path, conc, rng, deep_every=1, drifts=None):
     """replay one model behaviour from a start document; None or a message"""
     text = conc.start_text(start_doc)
     if start_doc:
-        f = parse(text)
+        f = parse(text, rng)
     else:
         from debian._deb822_repro.parsing import Deb822FileElement
         f = Deb822FileElement.new_empty_file()
